@@ -29,6 +29,11 @@ def prop_case(draw, tier="quick"):
     planes = []
     for i in range(nplanes):
         amp, opd, mask = draw(gen.aperture(shape, wl, min_samples=2 if i else 3))
+        mform = draw(st.sampled_from(["int", "int", "bool", "float"]))
+        if mform == "bool":
+            mask = mask.astype(bool)
+        elif mform == "float":
+            mask = mask.astype(float) * 2.5            # non-binary weights: only the support matters
         planes.append({"amp": amp, "opd": opd, "mask": mask if draw(st.booleans()) else None,
                        "f": samp["z"] if i == nplanes - 1 else draw(gen.finite(0.5, 50.0))})
     os_ = samp["oversample"]
